@@ -152,13 +152,13 @@ def run(ctx: Ctx) -> None:
         if ok:
             calls = vm.finish[want]
             fin = vm.smod.methods(want)["_finish"]
-            vparam = fin.args.args[1].arg
-            ok = len(calls) == 1 and attr_chain(calls[0][1].func) == (vparam, cb) and len(calls[0][1].args) == 1 and isinstance(calls[0][1].args[0], ast.Name) and calls[0][1].args[0].id == "self"
+            vparam = fin.args.args[1].arg if len(fin.args.args) > 1 else None  # (no visitor parameter: the receiver is not the one handed in)
+            ok = vparam is not None and len(calls) == 1 and attr_chain(calls[0][1].func) == (vparam, cb) and len(calls[0][1].args) == 1 and isinstance(calls[0][1].args[0], ast.Name) and calls[0][1].args[0].id == "self"
             cf = CFG(fin)
             nn = node_containing(cf, calls[0][1]) if calls else None
             ok = ok and nn is not None and not cf.paths_avoiding(cf.entry, cf.exit, lambda x: x is nn) and not cf.in_loop(nn)
         ctx.ob("R4.3", f"parserstate:{want}._finish|{cb}", ok,
-               msg=f"{cb} must be issued exactly once, with the state itself, by {want}._finish and by no other class (issuers found: {issuers})", node=vm.smod.cls(want) if want else vm.smod.tree, mod=vm.smod)
+               msg=f"{cb} must be issued exactly once, with the state itself, to the visitor handed in, by {want}._finish and by no other class (issuers found: {issuers})", node=vm.smod.cls(want) if want else vm.smod.tree, mod=vm.smod)
     # other classes' _finish must not emit anything
     for c, calls in vm.finish.items():
         if c not in STATE_CLASSES:
